@@ -113,6 +113,10 @@ pub trait Prop: Sync {
     fn max_shrink_iters(&self) -> u32 {
         1500
     }
+    /// number of candidates the structural minimiser may try
+    fn minimise_budget(&self) -> usize {
+        3000
+    }
 }
 
 pub fn journal_path(property: &str, check: &str, lane: usize) -> std::path::PathBuf {
@@ -279,7 +283,7 @@ pub fn structural_minimise<P: Prop>(
     lane: usize,
     known: &Known,
 ) -> (P::Case, String) {
-    let mut budget = 3000usize;
+    let mut budget = p.minimise_budget();
     let mut scratch = Stats::default();
     let kind = failure_kind(&msg);
     let fails = |c: &P::Case, scratch: &mut Stats| -> Option<String> {
